@@ -1,7 +1,7 @@
 (* C02 -- lossless mode reproduces every sample exactly.
    Property theorems only: statement + exact + Print Assumptions. *)
 From Coq Require Import List ZArith.
-From LJT Require Import model.Huff model.Lossless proofs.LosslessProofs.
+From LJT Require Import model.Huff model.Lossless proofs.LosslessProofs gen.GenLossless proofs.LosslessGenProofs.
 Import ListNotations.
 Local Open Scope Z_scope.
 
@@ -62,6 +62,21 @@ Theorem C02_component_roundtrip_pt0 : forall ri mpr psv prec w rows,
   codec_component ri mpr psv prec 0 rows = Some rows.
 Proof. exact codec_component_pt0. Qed.
 Print Assumptions C02_component_roundtrip_pt0.
+
+(* tie: the predictor macros, the wiring of the fourteen [un]differencing
+   functions, the first-row switch, the "& 0xFFFF" masks and the constants of the
+   category coder, as translated from the CURRENT sources (gen/GenLossless.v),
+   are the ones the model is written from *)
+Theorem C02_source_facts :
+  (forall psv Ra Rb Rc, gen_predictor psv Ra Rb Rc = predictor psv Ra Rb Rc) /\
+  (forall prec pt, gen_initial_x_c prec pt = initial_predictor_x prec pt /\
+                   gen_initial_x_d prec pt = initial_predictor_x prec pt) /\
+  gen_diff_wiring = model_wiring /\ gen_undiff_wiring = model_wiring /\
+  gen_diff_switch = id_wiring /\ gen_undiff_switch = id_wiring /\
+  (gen_undiff_masks <> [] /\ Forall (fun m => forall x, Z.land x m = and16 x) gen_undiff_masks) /\
+  gen_huff_consts = [32768; 32767; 32767; 32768; 16; 16; 32768].
+Proof. exact gen_source_facts. Qed.
+Print Assumptions C02_source_facts.
 
 (* ---- non-vacuity ---- *)
 Example C02_ex_alt16_hyp : Forall (fun r => length r = 3%nat /\ Forall (fun s => 0 <= s < 2 ^ 16) r) alt16.
